@@ -11,6 +11,17 @@ CHECKS = {
    design="4/C04"),
 }
 
+CHECKS["C01"] = dict(engine="E2-stateright + E3-bounded-exhaustive",
+   technique="explicit-state model checking of the real VM (stateright BFS over instruction sequences) plus bounded-exhaustive enumeration of boundary states and of all genomes up to a length bound under every step limit, differential against the PushRef reference semantics",
+   text="Every instruction of the full set (all enum-listed int/float/bool/exec instructions, print constants, PrintString, input variables, literal pushes) is applied by the real perform in every state of a boundary family (value alphabets with i64 extremes, NaN, infinities, signed zeros) x 10 capacity patterns, and in every state of a BFS over instruction sequences; all Plushy genomes up to 3 (thorough 5) genes over an 18-gene alphabet are run by the real run_to_completion under every step limit 0..8 (12) and capacities {1,2,3,8}, which exposes every intermediate state of the real loop; plus all ordered instruction pairs. Result kind, four stacks, output and capacities are compared with the set of results the reference semantics admit.",
+   note="Trusted: PushRef (DESIGN Appendix A) incl. the tolerance sets of DESIGN section 3; value alphabets stand for all values away from the listed boundaries; stateright BFS.",
+   design="4/C01")
+CHECKS["C02"] = dict(engine="E2-stateright + E3-bounded-exhaustive",
+   technique="explicit-state / bounded-exhaustive exploration of the real VM with a reference-free oracle (carried state == state before, full PushState equality) at every fault point",
+   text="Same exploration as C01 (every instruction x boundary states x capacity patterns x BFS over sequences) with a reference-free oracle: whenever the real perform returns Err(e), e.state() must equal the clone taken before the call (all stacks, limits, inputs, output). Second half: for every (state, instruction, continuation Q) where the instruction fails recoverably, run_to_completion of [i]++Q must end exactly like Q alone. The boundary family is exactly 'every point at which underflow or overflow can strike'.",
+   note="Trusted: PushState's derived PartialEq; states above their maximum (only producible through stack_mut().set_max_stack_size) are outside the property and not explored.",
+   design="4/C02")
+
 PLANNED = {}
 
 def main():
